@@ -10,7 +10,8 @@
    the theorem of the call it concerns (named below), never by a blanket classifier. *)
 From Avfs Require Import Base PathModel PathSpec PathProofs PathCleanProofs PathIterProofs.
 From Avfs Require Import MemFS MemFile World Posix WalkBridge WalkSym WalkBudget WalkReadlink StepEq.
-From Avfs Require Import DacLemmas DacProofs DacSteps DacAdmin DacExamples.
+From Avfs Require Import Inv StepInv.
+From Avfs Require Import DacLemmas DacProofs DacSteps DacAdmin DacInv DacExamples.
 
 (* ---- C03_class: checkPermission IS acl_permission_check ----------------------------------------------------------- *)
 (* for every mode word (unbounded), owner, group, user and request: owner bits if the user owns the object, else
@@ -39,7 +40,7 @@ Theorem C03_walk : forall (s : fsys) (sv : sview) (slm : slmode) (cs : list str)
   Forall good_comp cs ->
   let K := klookup s sv false (follow_of slm) (abs_path cs) in
   let r := search_node s v (abs_path cs) slm in
-  K <> WErr EFUEL -> K <> WErr ELOOP -> sr_err r <> EFuel ->
+  K <> WErr EFUEL -> sr_err r <> EFuel ->
   (sr_err r = EPermDenied <-> K = WErr EACCES).
 Proof. exact walk_denied_iff. Qed.
 
@@ -84,10 +85,10 @@ Theorem C03_step_chtimes : forall (s : fsys) (sv : sview) (cs : list str),
   proj_res Linux (chtimes s (sv_view sv) (abs_path cs)) = k_utimes s sv (abs_path cs).
 Proof. exact dstep_chtimes. Qed.
 
-(* owner or administrator, EPERM otherwise.  [chmod_keeps_setgid] excludes a deviation that was NOT listed: MemFS
-   does not clear S_ISGID for an owner outside the object's group (witness: DacTree.chmod_setgid_differs) *)
+(* owner or administrator, EPERM otherwise; S_ISGID dropped for an owner outside the object's group (no side
+   condition: the rule was missing from MemFS, the failed proof gave the witness, the repository fix added it) *)
 Theorem C03_step_chmod : forall (s : fsys) (sv : sview) (cs : list str) (mode : N),
-  dac_hyps s sv -> path_ok s sv SlEval cs -> chmod_keeps_setgid s sv cs mode ->
+  dac_hyps s sv -> path_ok s sv SlEval cs ->
   (fst (chmod s (sv_view sv) (abs_path cs) mode), proj_res Linux (snd (chmod s (sv_view sv) (abs_path cs) mode)))
   = k_chmod s sv (abs_path cs) mode.
 Proof. exact dstep_chmod. Qed.
@@ -142,17 +143,17 @@ Theorem C03_step_chdir : forall (s : fsys) (sv : sview) (cs : list str),
   end.
 Proof. exact dstep_chdir. Qed.
 
-(* OpenFile, every flag combination whose access mode is O_RDONLY, O_WRONLY or O_RDWR: read/write permission by
+(* OpenFile, every flag combination (the invalid access mode 3 included): read/write permission by
    access mode, O_TRUNC needs write permission, a directory opens read-only *)
 Theorem C03_step_open_existing : forall (s : fsys) (sv : sview) (cs : list str) (flag perm : N) (vi : nat),
-  dac_hyps s sv -> path_ok s sv SlEval cs -> (N.land flag 3 < 3)%N -> has flag O_CREATE = false ->
+  dac_hyps s sv -> path_ok s sv SlEval cs -> has flag O_CREATE = false ->
   (has flag O_TRUNC = true -> file_privs_kept s sv cs) ->
   open_sim (open_file s (sv_view sv) vi (abs_path cs) flag perm) (k_open s sv (abs_path cs) flag perm).
 Proof. exact dstep_open_nocreat. Qed.
 
 (* O_CREAT: write + search permission on the directory of the (possibly link-resolved) name *)
 Theorem C03_step_open_create : forall (s : fsys) (sv : sview) (w : list str) (cl : str) (flag perm : N) (vi : nat),
-  dac_hyps s sv -> path_ok s sv SlEval (w ++ [cl]) -> (N.land flag 3 < 3)%N ->
+  dac_hyps s sv -> path_ok s sv SlEval (w ++ [cl]) ->
   has flag O_CREATE = true -> has flag O_EXCL = false ->
   (has flag O_TRUNC = true -> file_privs_kept s sv (w ++ [cl])) -> no_setgid_parent_follow s sv (w ++ [cl]) ->
   let p := abs_path (w ++ [cl]) in
@@ -161,7 +162,7 @@ Proof. exact dstep_open_creat. Qed.
 
 (* O_CREAT|O_EXCL.  [excl_existing_accessible]: MemFS answers EACCES before EEXIST (listed: C03-ERRNO-PRIORITY) *)
 Theorem C03_step_open_excl : forall (s : fsys) (sv : sview) (w : list str) (cl : str) (flag perm : N) (vi : nat),
-  dac_hyps s sv -> path_ok s sv SlLstat (w ++ [cl]) -> (N.land flag 3 < 3)%N ->
+  dac_hyps s sv -> path_ok s sv SlLstat (w ++ [cl]) ->
   has flag O_CREATE = true -> has flag O_EXCL = true ->
   excl_existing_accessible s sv (w ++ [cl]) flag -> no_setgid_parent s sv (w ++ [cl]) ->
   let p := abs_path (w ++ [cl]) in
@@ -221,15 +222,38 @@ Proof. exact dstep_chown_refused. Qed.
    hypotheses above per call *)
 Theorem C03_step : forall (phl : bool) (w : world) (vi : nat) (sw : sworld) (c : call),
   absw w vi sw -> dcovered phl vi sw c ->
-  stat_sim (snd (impl_step_proj w c)) (snd (spec_step phl sw c))
+  obs_sim (snd (impl_step_proj w c)) (snd (spec_step phl sw c))
   /\ absw (fst (impl_step_proj w c)) vi (fst (spec_step phl sw c)).
 Proof. exact dstep_world. Qed.
 
 Theorem C03_history : forall (phl : bool) (vi : nat) (cs : list call) (w : world) (sw : sworld),
   absw w vi sw -> dcovered_run phl vi sw cs ->
-  Forall2 stat_sim (snd (impl_run w cs)) (snd (spec_run_phl phl sw cs))
+  Forall2 obs_sim (snd (impl_run w cs)) (snd (spec_run_phl phl sw cs))
   /\ absw (fst (impl_run w cs)) vi (fst (spec_run_phl phl sw cs)).
 Proof. exact dhistory_world. Qed.
+
+(* on the states of C05: [Inv] (kept by every step) and [links_ok] (kept by the specification's calls) at the START
+   are enough; the hypotheses [dac_hyps] of the step theorem are derived at every state of the run, and the premises
+   of each call ([dcall_ok]: the deviation classes, the fuel conditions) may use them.  No condition on the user. *)
+Theorem C03_history_inv : forall (phl : bool) (vi : nat) (cs : list call) (w : world) (sw : sworld),
+  Inv w -> absw w vi sw -> links_ok (f_heap (w_fs w)) -> dcall_ok_run phl vi sw cs ->
+  Forall2 obs_sim (snd (impl_run w cs)) (snd (spec_run_phl phl sw cs))
+  /\ absw (fst (impl_run w cs)) vi (fst (spec_run_phl phl sw cs))
+  /\ Inv (fst (impl_run w cs)) /\ links_ok (f_heap (w_fs (fst (impl_run w cs)))).
+Proof. exact dhistory_inv. Qed.
+
+(* non-vacuity: alice (a plain user) runs Mkdir, OpenFile(O_CREAT|O_EXCL), Chmod, Stat on the example tree *)
+Example C03_history_inv_example :
+  Inv DacTree.w_alice /\ links_ok (f_heap (w_fs DacTree.w_alice)) /\ dcall_ok_run true 0 DacTree.sw_alice DacTree.ahist
+  /\ Forall2 obs_sim (snd (impl_run DacTree.w_alice DacTree.ahist)) (snd (spec_run_phl true DacTree.sw_alice DacTree.ahist))
+  /\ snd (spec_run_phl true DacTree.sw_alice DacTree.ahist)
+     = [ SOk; SOk; SOk;
+         SInfo {| fi_name := DacTree.n_g; fi_size := 0; fi_mode := N.lor MODE_SETGID 384; fi_uid := 1000; fi_gid := 1000;
+                  fi_nlink := 1; fi_id := 5 |} ].
+Proof.
+  split; [exact DacTree.dtree_inv|]. split; [exact DacTree.dtree_links_ok|]. split; [exact DacTree.ahist_ok|].
+  split; [exact (proj1 DacTree.ahist_inv)|exact (proj1 DacTree.ahist_results)].
+Qed.
 
 (* ---- C03_admin_never_refused ---------------------------------------------------------------------------------------- *)
 (* no call of the world step answers the administrator EACCES or EPERM, except: Link on a directory or symbolic link
@@ -301,13 +325,13 @@ Example C03_example_step :
   /\ w_fs (fst (impl_step_proj DacTree.w_alice c)) = sw_fs (fst (spec_step true DacTree.sw_alice c)).
 Proof. exact DacTree.world_step_alice_mkdir. Qed.
 
-(* the deviation that was not in the list: the two sides differ on Chmod(02644) by an owner outside the group *)
+(* Chmod(02644) by an owner outside the group: S_ISGID dropped on both sides (the former witness) *)
 Example C03_example_chmod_setgid :
   let c := CChmod 0 (abs_path [DacTree.n_e; DacTree.n_q]) (N.lor MODE_SETGID 420) in
   snd (impl_step_proj DacTree.w_alice c) = SOk /\ snd (spec_step true DacTree.sw_alice c) = SOk
-  /\ meta_at (f_heap (w_fs (fst (impl_step_proj DacTree.w_alice c)))) 8 = Some (DacTree.mk (N.lor MODE_SETGID 420) 1000 2000)
+  /\ meta_at (f_heap (w_fs (fst (impl_step_proj DacTree.w_alice c)))) 8 = Some (DacTree.mk 420 1000 2000)
   /\ meta_at (f_heap (sw_fs (fst (spec_step true DacTree.sw_alice c)))) 8 = Some (DacTree.mk 420 1000 2000).
-Proof. exact DacTree.chmod_setgid_differs. Qed.
+Proof. exact DacTree.chmod_nonmember_clears_setgid. Qed.
 
 (* the administrator theorem applies to the initial world of MemFS *)
 Example C03_example_admin : forall um c, call_view (init_world_linux um) c = 0 ->
